@@ -203,13 +203,18 @@ def run(tier):
     # setcc, BMI2 ...): for an operand M the bytes ModRM.mod/rm + SIB + displacement of `<instruction> M` must be those of `lea r15, M`
     # under the same options (only ModRM.reg differs). Decoding cannot see a swap that keeps the address.
     TMPL = ["jmp %s", "call %s", "push qword %s", "vpaddb ymm1, ymm2, %s", "paddb xmm1, %s", "mov rdx, %s", "mov %s, rdx", "inc dword %s", "sete %s", "bextr rax, %s, rbx",
-            "movq %s, xmm1", "prefetcht0 %s", "cmovne rcx, %s", "vmovdqu %s, ymm9", "mulx rax, rbx, %s", "xchg r9, %s"]
+            "movq %s, xmm1", "prefetcht0 %s", "cmovne rcx, %s", "vmovdqu %s, ymm9", "mulx rax, rbx, %s", "xchg r9, %s",
+            # ... and every other class of instruction with a memory operand (one representative each)
+            "test qword %s, rdx", "movd xmm1, %s", "movd %s, xmm9", "shld %s, rax, cl", "shld qword %s, rax, 5", "add qword %s, 5", "imul rax, %s, 5",
+            "imul rcx, %s", "movzx eax, byte %s", "adcx rax, %s", "rorx rax, %s, 5", "vperm2i128 ymm1, ymm2, %s, 1", "shl qword %s, cl", "shl qword %s, 1", "neg qword %s",
+            "movntq %s, mm1", "paddb mm1, %s", "clflush %s", "jmp far %s", "mov byte %s, 5", "cmp %s, ax", "vpaddb xmm8, xmm9, %s"]  # (bt m / pshufd x,m / xchg m,r / pop m are forms the library does not have)
+    IMM8_TAIL = {"shld qword %s, rax, 5", "add qword %s, 5", "imul rax, %s, 5", "rorx rax, %s, 5", "vperm2i128 ymm1, ymm2, %s, 1", "mov byte %s, 5"}
     lealines = sorted(per_line)
     pickl = lealines if full else rnd.sample(lealines, min(len(lealines), 70))
     fitems, fmeta = [], []
     for ll in pickl:
         M = ll[len("lea r15, "):]
-        for t in (TMPL if full else rnd.sample(TMPL, 6)):
+        for t in (TMPL if full else rnd.sample(TMPL, 10)):
             for m in enc.COMBOS:
                 if m in per_line[ll]:
                     fitems.append((m, t % M, 0))
@@ -227,6 +232,8 @@ def run(tier):
             v.violation(case, "rejected", None)
             continue
         B = bytes.fromhex(r["bytes"])
+        if t in IMM8_TAIL:
+            B = B[:-1]  # (the one-byte immediate behind the memory operand is not part of the comparison)
         k = len(L) - L.index(0x8d) - 1
         if len(B) <= k or (B[-k] & 0xC7) != (L[-k] & 0xC7) or B[len(B) - k + 1:] != L[len(L) - k + 1:]:
             v.violation(case, "operand-form-differs-from-lea:" + ("swap" if ("+rsp" in ll or "+esp" in ll) else "nobase"), "instruction %s lea %s (last %d bytes: ModRM, SIB, displacement)" % (B.hex(), L.hex(), k))
